@@ -98,7 +98,7 @@ def main():
         ],
         "checks": checks,
         "not_applicable": na,
-        "notes": "See DESIGN.md (section 9 is the as-built account; 9.8 lists what each check varies). /verif/known_findings.json holds the open and fixed findings, /verif/seeded/ 200 independently authored seeded defects with their demonstrations (tools/seeded_all.sh re-applies each to /repo and runs the deciding check). Exit codes: 0 held, 1 violation (VIOLATION line with replay file), 2 harness error (build failure, nondeterminism, unreproducible replay).",
+        "notes": "See DESIGN.md (section 9 is the as-built account; 9.8 lists what each check varies). /verif/known_findings.json holds the open and fixed findings, /verif/seeded/ 215 independently authored seeded defects with their demonstrations (tools/seeded_all.sh re-applies each to /repo and runs the deciding check). Exit codes: 0 held, 1 violation (VIOLATION line with replay file), 2 harness error (build failure, nondeterminism, unreproducible replay).",
     }
     json.dump(m, open("/verif/MANIFEST.json","w"), indent=1)
     print("claimed", sorted(CLAIMED), "n/a", len(na))
